@@ -53,9 +53,11 @@ WiringPoints ==
 (* ---- family "env" (C03 C12): argv, environment, working directory, program resolution, signal state ---- *)
 EnvBase == [argvx |-> <<>>, envb |-> 0, envx |-> <<"none">>, penv |-> <<"P=1">>, wd |-> "", prog |-> "/bin/c",
             cwd |-> "/w", cwdlen |-> 0, mask |-> <<>>, disp |-> <<>>, limit |-> 32]
-ArgvXs == {<<>>, <<"a b">>, <<"", "q\"x", "b\\s", "k=v", " ", "-x">>, <<"a", "a", "a">>}
-EnvXs == {<<"none">>, <<>>, <<"A=1">>, <<"B=2", "A=3", "=x", "C", "A=1">>}
-PEnvs == {<<>>, <<"P=1">>, <<"P=1", "Q=", "A=0">>}
+\* (%XX = a byte that is not printable ASCII, decoded by the harness: tab, newline, DEL, lone continuation / invalid UTF-8, valid UTF-8)
+ArgvXs == {<<>>, <<"a b">>, <<"", "q\"x", "b\\s", "k=v", " ", "-x">>, <<"a", "a", "a">>,
+           <<"%FF%FE", "%C3(", "%E2%82%AC", "%09", "a%0Ab", "%7F", "%80x%25">>}
+EnvXs == {<<"none">>, <<>>, <<"A=1">>, <<"B=2", "A=3", "=x", "C", "A=1">>, <<"U=%FF%80", "%C3%A9=%0A">>}
+PEnvs == {<<>>, <<"P=1">>, <<"P=1", "Q=", "A=0">>, <<"P=%FE%09">>}
 Progs == {"/bin/c", "./c", "sub/c", "c", "sub//c"}
 Cwds == {"/w", "/"}
 CwdLens == {0, 1, 4093, 4094, 4095, 4096, 4097, 8189, 8190, 8191, 8192, 8193, 4000, 5000}
